@@ -31,7 +31,7 @@ EXHAUSTIVE = {'quick': False, 'thorough': False}
 A, B = "/'g'/'a'", "/'g'/'b'"
 OPS = ['-', 'f1', 'f2', 'fx', 's', 'n']     # unlisted, full n=1, full n=2, full other type n=1, same, nodata
 TYPE_OF = {A: 'i32', B: 'i16'}
-OTHER = {A: 'i16', B: 'f64'}
+OTHER = {A: 'f32', B: 'f64'}      # one equally sized and one differently sized alternative type
 
 
 def seg_choices():
